@@ -52,6 +52,10 @@ def make(name: str, *args):
         from .setter import SetterScenario
 
         return Mix("C03", [(3, SetterScenario()), (1, ConcatScenario("C03"))])
+    if name == "C07":
+        from .geometry import GeometryScenario
+
+        return GeometryScenario()
     if name == "C10":
         from .readonly import ReadOnlyScenario
 
